@@ -264,6 +264,39 @@ func ShortRead(p *load.Program, run *report.Run, pkgs []string, files map[string
 						if !passes || hfn == nil || hfn.Pkg() != c.pkg.Types {
 							return true
 						}
+						// the length the helper checked is the length of the buffer read here: `n, err := helper(r)` and
+						// the buffer is `make([]byte, n)` (a check of some other length covers nothing)
+						sized := false
+						ast.Inspect(c.fd.Body, func(q ast.Node) bool {
+							as, isAs := q.(*ast.AssignStmt)
+							if !isAs || len(as.Rhs) != 1 || as.Rhs[0] != ast.Expr(hc) || len(as.Lhs) == 0 {
+								return true
+							}
+							lid, isID := as.Lhs[0].(*ast.Ident)
+							if !isID || lid.Name == "_" {
+								return true
+							}
+							bufName := c.text(call.Args[0])
+							ast.Inspect(c.fd.Body, func(r ast.Node) bool {
+								bs, isAs := r.(*ast.AssignStmt)
+								if !isAs || len(bs.Lhs) != 1 || len(bs.Rhs) != 1 || c.text(bs.Lhs[0]) != bufName {
+									return true
+								}
+								if mk, isCall := bs.Rhs[0].(*ast.CallExpr); isCall && c.text(mk.Fun) == "make" && len(mk.Args) >= 2 {
+									ast.Inspect(mk.Args[1], func(x ast.Node) bool {
+										if id, ok := x.(*ast.Ident); ok && id.Name == lid.Name {
+											sized = true
+										}
+										return !sized
+									})
+								}
+								return true
+							})
+							return true
+						})
+						if !sized {
+							return true
+						}
 						for _, f := range c.pkg.Syntax {
 							for _, d := range f.Decls {
 								hd, isFD := d.(*ast.FuncDecl)
